@@ -170,6 +170,12 @@ def prune_service_runonce(chk, prog):
             for en in reldb.ENTITIES:
                 ob.verify(ex, 'failed-job-run-persists-nothing:' + en, table_same(ex, pre[en], db.t[en]))
             ob.verify(ex, 'failed-job-run-wakes-nobody', not any(x[0] == 'wake-publish' for x in ex.events))
+            # the round ends its transaction also when it failed (a leaked open transaction keeps its locks: later writers block)
+            begun = [x[1] for x in ex.events if x[0] == 'begin' and x[1] is not None]
+            ended = [x[1] for x in ex.events if x[0] in ('commit', 'rollback')]
+            failed_begin = fs['fired'][1] == 'BEGIN'
+            ob.verify(ex, 'failed-job-run-ends-its-transaction', failed_begin or all(any(t is e for e in ended) or getattr(t, 'state', 'open') != 'open' for t in begun),
+                      lambda m: {'failing statement': '%s #%d' % (fs['fired'][1], fs['fired'][0])})
         else:
             ob.verify(ex, 'fault-free-job-run-succeeds', err is None)
             ob.verify(ex, 'job-transaction-is-closed', all(t.state != 'open' for _, t in ex.env.get('txs', [])))
